@@ -172,6 +172,23 @@ func genPair(r *hx.Rng) (hi, lo uint64) {
 			return math.MaxUint64, v
 		}
 		return 0, v
+	case 9: // low word at or next to a rounding tie of float64(lo) (k significant bits, k = 54..64), any high word
+		k := r.Range(54, 64)
+		sh := uint(k - 53)
+		lo = ((r.U64() | 1<<63) >> 11) << sh
+		lo |= 1 << (sh - 1)
+		lo = uint64(int64(lo) + int64(r.Range(-1, 1)))
+		switch r.Intn(4) {
+		case 0:
+			hi = 0
+		case 1:
+			hi = uint64(1 + r.Intn(3))
+		case 2:
+			hi = r.U64()
+		default:
+			hi = r.U64() >> uint(r.Intn(64))
+		}
+		return hi, lo
 	default:
 		return r.U64() >> uint(r.Intn(64)), r.U64()
 	}
